@@ -93,7 +93,7 @@ def run(ctx: Ctx) -> None:
         ctx.notes.append(f"{len(missing)} model paths not realised by the sweeps (the environment of the model is unconstrained; e.g. {missing[:3]})")
 
     # (3a) stratified random exploration
-    n = ctx.pick(1600, 24000)
+    n = ctx.pick(1200, 18000)
     rng = np.random.default_rng([ctx.seed, 8])
     specs = [kc.gen_min_spec(rng, ctx.seed * 1_000_003 + i) for i in range(n)]
     order = sorted(range(n), key=lambda i: -(specs[i]["dim"] * specs[i]["maxdim"] * (specs[i]["maxr"] + 1)))
